@@ -40,28 +40,79 @@ func (r *Run) execute() *Run {
 		c   *gbn.GoBackNConn
 		err error
 	}
+	for _, p := range cfg.StaleC {
+		r.Net.Inject("c", p)
+	}
+	for _, p := range cfg.StaleS {
+		r.Net.Inject("s", p)
+	}
+	r.Net.SetDecider(cfg.HsDecide)
 	srvCh := make(chan res, 1)
+	cliCh := make(chan res, 1)
 	go func() {
+		if cfg.StartDelay[1] > 0 {
+			time.Sleep(cfg.StartDelay[1])
+		}
 		s, err := gbn.NewServerConn(
 			ctx, r.Net.SendFunc("s"), r.Net.RecvFunc("s"),
 			cfg.opts(1)...,
 		)
 		srvCh <- res{s, err}
 	}()
-	c, err := gbn.NewClientConn(
-		ctx, cfg.N, r.Net.SendFunc("c"), r.Net.RecvFunc("c"),
-		cfg.opts(0)...,
-	)
-	sr := <-srvCh
+	go func() {
+		if cfg.StartDelay[0] > 0 {
+			time.Sleep(cfg.StartDelay[0])
+		}
+		c, err := gbn.NewClientConn(
+			ctx, cfg.N, r.Net.SendFunc("c"), r.Net.RecvFunc("c"),
+			cfg.opts(0)...,
+		)
+		cliCh <- res{c, err}
+	}()
+	patience := cfg.HsPatience
+	if patience == 0 {
+		patience = 60 * time.Second
+	}
+	var cr, sr res
+	gotC, gotS := false, false
+	deadline := time.After(patience)
+	for !(gotC && gotS) {
+		select {
+		case cr = <-cliCh:
+			gotC = true
+		case sr = <-srvCh:
+			gotS = true
+		case <-deadline:
+			r.Rec.Emit("hsCancel")
+			cancel()
+			deadline = nil
+		}
+	}
+	c, err := cr.c, cr.err
 	r.HsErr = [2]string{errStr(err), errStr(sr.err)}
+	cN, sN := -1, -1
+	if c != nil && err == nil {
+		n, _ := c.VerifN()
+		cN = int(n)
+	}
+	if sr.c != nil && sr.err == nil {
+		n, _ := sr.c.VerifN()
+		sN = int(n)
+	}
 	if err != nil || sr.err != nil {
+		r.Rec.Emit("hsResult", "cErr", errStr(err), "sErr", errStr(sr.err),
+			"cN", cN, "sN", sN, "c2s", 0, "s2c", 0)
 		r.Rec.Emit("hsFail", "c", errStr(err), "s", errStr(sr.err))
-		if c != nil {
+		if c != nil && err == nil {
 			c.Close()
+			c.VerifStopPongTicker()
 		}
-		if sr.c != nil {
+		if sr.c != nil && sr.err == nil {
 			sr.c.Close()
+			sr.c.VerifStopPongTicker()
 		}
+		cancel()
+		r.Quiesce()
 		return r
 	}
 	r.Client, r.Server = c, sr.c
@@ -69,6 +120,34 @@ func (r *Run) execute() *Run {
 	r.conns = conns
 	r.Rec.Emit("hsDone")
 	r.Net.SetDecider(cfg.Decide)
+	if cfg.HsProbe {
+		// first data exchange: one message each way
+		ok := [2]int{}
+		perr := [2][2]string{}
+		var pw sync.WaitGroup
+		for i, pair := range [][2]*gbn.GoBackNConn{{c, sr.c}, {sr.c, c}} {
+			i, pair := i, pair
+			pw.Add(2)
+			go func() {
+				defer pw.Done()
+				pair[0].SetSendTimeout(30 * time.Second)
+				perr[i][0] = errStr(pair[0].Send(Payload(1, 12)))
+			}()
+			go func() {
+				defer pw.Done()
+				pair[1].SetRecvTimeout(30 * time.Second)
+				b, err := pair[1].Recv()
+				perr[i][1] = errStr(err)
+				if err == nil && PayloadID(b) == 1 {
+					ok[i] = 1
+				}
+			}()
+		}
+		pw.Wait()
+		r.Rec.Emit("hsResult", "cErr", "", "sErr", "", "cN", cN, "sN", sN,
+			"c2s", ok[0], "s2c", ok[1], "c2sErr", perr[0][0]+"|"+perr[0][1],
+			"s2cErr", perr[1][0]+"|"+perr[1][1])
+	}
 
 	var wg sync.WaitGroup
 	for _, ep := range []string{"c", "s"} {
